@@ -100,6 +100,29 @@ func genFailing(r *core.Rand, h *gen.Hist, cause string) *failStmt {
 		fs.st, fs.k, fs.n = s, k, n
 	}
 	switch cause {
+	case "repeated-column":
+		// a column list that names a column twice (legal: the later value is
+		// the one stored); in the k-th row the earlier value is valid and the
+		// later one is not
+		n := r.Range(2, 8)
+		k := r.Range(2, n)
+		ci := r.Intn(len(t.Cols))
+		s := &proto.Stmt{Kind: "insert", Table: t.Name}
+		for _, cl := range t.Cols {
+			s.Cols = append(s.Cols, cl.Name)
+		}
+		s.Cols = append(s.Cols, t.Cols[ci].Name)
+		for i := 1; i <= n; i++ {
+			row := h.NewRow(t, 0)
+			extra := row[ci]
+			if i == k {
+				// the later of the two values is the one mkdb stores: with the
+				// invalid value in that place the statement has to be refused
+				extra = wrongTypeVal(r, t.Cols[ci])
+			}
+			s.Rows = append(s.Rows, append(row, extra))
+		}
+		fs.st, fs.k, fs.n = s, k, n
 	case model.FailNoTable:
 		switch r.Intn(3) {
 		case 0:
@@ -158,6 +181,22 @@ func genFailing(r *core.Rand, h *gen.Hist, cause string) *failStmt {
 			name = []string{"sys_pages", "sys_schema"}[r.Intn(2)]
 		}
 		fs.st = &proto.Stmt{Kind: "create", Table: name, Defs: []proto.ColDef{{Name: "x", Type: "int"}, {Name: "y", Type: "varchar", Len: 10}}}
+	case "create-name-too-long":
+		// the catalog row of one column (table name + column name) exceeds
+		// the 400-byte row limit; that column is the first, a middle or the
+		// last one
+		nd := r.Range(1, 4)
+		bad := r.Intn(nd)
+		var defs []proto.ColDef
+		for i := 0; i < nd; i++ {
+			d := proto.ColDef{Name: fmt.Sprintf("c%d", i), Type: "int"}
+			if i == bad {
+				d.Name = strings.Repeat("c", r.Range(215, 260))
+			}
+			defs = append(defs, d)
+		}
+		fs.st = &proto.Stmt{Kind: "create", Table: strings.Repeat("n", r.Range(200, 240)), Defs: defs}
+		fs.k, fs.n = bad+1, nd
 	case "create-length-out-of-range":
 		name := fmt.Sprintf("fresh%d", r.Intn(1000))
 		// the column with the out-of-range length at any position, among
@@ -239,10 +278,10 @@ func genFailing(r *core.Rand, h *gen.Hist, cause string) *failStmt {
 }
 
 var c14Causes = []string{model.FailNoTable, model.FailColCount, model.FailType, model.FailRange, model.FailSize, model.FailDupTable,
-	"update-" + model.FailSize, "update-" + model.FailType, "update-" + model.FailRange, "where-type", "create-length-out-of-range"}
+	"update-" + model.FailSize, "update-" + model.FailType, "update-" + model.FailRange, "where-type", "create-length-out-of-range", "repeated-column", "create-name-too-long"}
 
 func checkC14(c *core.Ctx) []core.Floor {
-	c.Rule = "states from seeded histories (splits, tombstones); then failing INSERT/UPDATE/DELETE/CREATE TABLE statements for every cause the property names, with the invalid row at every position k of n-row INSERTs (n<=8) and UPDATEs whose k-th matching row is the one that overflows; full-database snapshot (SELECT * of all tables + catalog) before, immediately after, after flush+close+new process, and after crash+recovery of an image taken right after the failure; then 3 valid statements. Distinct = (history, failing statement); non-trivial = the failing row was not the first (k > 1) or the cause is not row-related."
+	c.Rule = "states from seeded histories (splits, tombstones); then failing INSERT/UPDATE/DELETE/CREATE TABLE statements for every cause the property names (plus column lists that name a column twice with a valid and an invalid value), with the invalid row at every position k of n-row INSERTs (n<=8) and UPDATEs whose k-th matching row is the one that overflows; full-database snapshot (SELECT * of all tables + catalog) before, immediately after, after flush+close+new process, and after crash+recovery of an image taken right after the failure; then 3 valid statements. Distinct = (history, failing statement); non-trivial = the failing row was not the first (k > 1) or the cause is not row-related."
 	c.Assume = []string{"which error value is returned is not judged, only that one is", "row ids may have gaps after a refused row"}
 	drv := mustDriver(c, false)
 	n := 300
